@@ -290,7 +290,12 @@ Fixpoint next_results (n : nat) (s : tstate) : list nres :=
             end
   end.
 
+(* how many results beyond one per input byte are precomputed: front/ParseEnd.v proves that the parser never asks for more *)
+Definition margin : nat := 120.
+Arguments margin : simpl never.
+Lemma margin_ge : 3 <= margin.
+Proof. apply Nat.leb_le. reflexivity. Qed.
 Definition run (input : bytes) (fails : bool) : list nres :=
-  next_results (length input + 3)
+  next_results (length input + margin)
     {| buf := {| rest := input; lastByte := None; lastRune := None; failing := fails |}; errs := [] |}.
 
